@@ -7,7 +7,16 @@ the solver (steadiers.solver_dispatcher.neqs_levenberg), _resolve_steady_wrt, bl
 fords.steadiers.solve_steady_linear_* wrapped from outside; one Coq case per parameter variant compares, bit for
 bit, wrt/fixed qids, per block the index masks, the initial guess and eval_func(final_guess), and the stored
 levels/changes after write-back; for linear models the write-back and the lstsq contract.
-Falsifier: the property on the public getters with an independent evaluator of the SOURCE equations.
+Steady plans: translator/steadyplan.py -> gen/SteadyPlanGen.v (method -> register table of the exec template, guard of
+fix / unfix, swap order, registers of flat mode, set algebra of _resolve_steady_wrt, descriptor of _steady_linear);
+model/SteadyPlan.v (register machine over call histories, defined in terms of the fragments); proofs/SteadyPlanProofs.v.
+Correspondence: per generated model one random history of public SteadyPlan calls played on a fresh SteadyPlan and on
+the register machine; registers + raised flag after every call, _resolve_steady_wrt qids and the split default compared
+exactly.
+Falsifier: the property on the public getters with an independent evaluator of the SOURCE equations (the `!!` steady
+versions where present, incl. materially different ones and pinned unit roots, also for linear=True models); plans are
+set up by generated call HISTORIES (fix / unfix / swap / lists / undone calls) whose meaning is stated independently
+(effective_plan); fixed quantities must keep assigned level AND change (growth mode: unit root whose drift is endogenized).
 
 Behaviour seen while building (none of it contradicts the property text on an admissible input, nothing reported):
   * the solver's absolute tolerance lets it report success at degenerate points of growth models (levels ~1e-13,
@@ -32,11 +41,12 @@ import numpy as np
 from vf import core
 from vf.core import CorrResult, Disagreement, Failure, coq_float, coq_list
 from translator import steady as tr
+from translator import steadyplan as trp
 
 ID = "C05"
 PROPS = "props/C05.v"
-GENERATED = [tr.OUT]
-CASE_DEPS = ["lib/CaseUtil.vo", "model/Steady.vo"]
+GENERATED = [tr.OUT, trp.OUT]
+CASE_DEPS = ["lib/CaseUtil.vo", "model/Steady.vo", "model/SteadyPlan.vo"]
 ALLOWED_AXIOMS = {
     "sig_forall_dec", "sig_not_dec", "functional_extensionality_dep",
     "ClassicalDedekindReals.sig_forall_dec", "ClassicalDedekindReals.sig_not_dec",
@@ -45,6 +55,8 @@ ALLOWED_AXIOMS = {
 }
 TRUSTED = [
     "translator/steady.py + translator/pyexpr.py (path/cell formulas, constants, stacked linear systems -> gen/SteadyGen.v)",
+    "translator/steadyplan.py (SteadyPlan method table / fix-unfix guards / swap order, _SteadyPlannable registers, set algebra of "
+    "_resolve_steady_wrt, descriptor systemized by _steady_linear -> gen/SteadyPlanGen.v; surrounding statements pinned by text)",
     "the solvers offered by steadiers/solver_dispatcher.py (neqs Levenberg, scipy.optimize.root) and numpy.linalg.lstsq are ORACLES: the harness records their outputs by "
     "wrapping them from outside; theorems say what follows when the residual they report is below the tolerance",
     "numpy log/exp/power are black boxes: their values at the arguments the model needs are recorded per run and looked "
@@ -64,7 +76,8 @@ ASSUMPTIONS = [
 MANIFEST = {
     "technique": "Coq proof over the reals of an executable model of the steady-state plumbing (cell formulas, constants and "
                  "stacked linear systems regenerated from the source on every run); bit-exact PrimFloat correspondence of the "
-                 "same model text driven through Simultaneous.steady with the solver / lstsq recorded as oracles",
+                 "same model text driven through Simultaneous.steady with the solver / lstsq recorded as oracles; steady plans as a "
+                 "register machine (statement shapes regenerated from the source) run against SteadyPlan on generated call histories",
     "level_text": "Theorems (props/C05.v), for all models, sizes, blocks, guesses: (1) the steady array row of a quantity is "
                   "level+change*shift, or level*change^shift for log-variables, at every column; (2) writing the final guess back "
                   "and reading it again returns the guess on the solved cells, every other cell of the variant is unchanged (fixed / "
@@ -74,7 +87,11 @@ MANIFEST = {
                   "monomial = monomial equations on geometric paths; (5) blocks solved one after another in a block-triangular order "
                   "(or one joint block) leave ALL equations holding on the finally stored path -- proved for the model of the whole "
                   "_steady_nonlinear loop incl. plan bookkeeping; (6) an exact solution of the stacked linear system satisfies the "
-                  "transition and measurement equations on Xi+t*dXi at every date.",
+                  "transition and measurement equations on Xi+t*dXi at every date; (7) steady plans as a register machine over "
+                  "EVERY history of public calls: fix(names) fixes level and (growth mode) change, unfix undoes both, a status lasts "
+                  "until the quantity is named again, key sets never change, unknowns = endogenous - exogenized + endogenized with "
+                  "level/change unknowns per block, and a quantity fixed by the plan keeps its assigned level (growth: and change) "
+                  "through the whole _steady_nonlinear loop; (8) the linear steady state is computed from the steady descriptor.",
     "level_note": "partial. Not proved: solver convergence (oracle; conclusions are conditional on its reported residual); 'every "
                   "date' for general nonlinear growth models (refuted for the algorithm: C05_two_dates_do_not_suffice; the general "
                   "statement is C05_every_date_partial = dates t and t+1, other dates are searched by the falsifier); rounding "
@@ -86,6 +103,7 @@ MANIFEST = {
 
 def translate(ctx):
     tr.run()
+    trp.run()
 
 
 # =====================================================================================================
@@ -274,7 +292,35 @@ def gen_spec(rng) -> dict:
         if rng.random() < 0.12:
             _far_starts(rng, spec)
     _gen_solver(rng, spec)
+    spec["plan_hist"] = gen_plan_history(rng, spec)
     return spec
+
+
+def gen_plan_history(rng, spec) -> list:
+    """a random history of public SteadyPlan calls for the register-machine correspondence (NOT used for solving): all
+    twelve methods, names one by one / as lists / Ellipsis ("..."), now and then a name the register does not have"""
+    endog, params = list(spec["vars"]), list(spec["params"])
+    other = ["nope"] + list(spec["shocks"][:1])
+
+    def pick(pool, alt):
+        r = rng.random()
+        return rng.choice(other) if r < 0.05 else rng.choice(alt) if (r < 0.1 and alt) else rng.choice(pool)
+    hist = []
+    for _ in range(rng.choice([1, 2, 3, 4, 5, 6, 8, 10])):
+        meth = rng.choice(PLAN_METHODS)
+        if meth in ("swap", "unswap"):
+            hist.append([meth, [[pick(endog, params), pick(params, endog)] for _ in range(rng.choice([1, 1, 2]))]])
+            continue
+        pool, alt = (params, endog) if "endogenize" in meth else (endog, params)
+        r = rng.random()
+        if r < 0.12:
+            arg = "..."
+        elif r < 0.6:
+            arg = pick(pool, alt)
+        else:
+            arg = [pick(pool, alt) for _ in range(rng.choice([0, 1, 2, 2, 3]))]
+        hist.append([meth, arg])
+    return hist
 
 
 def _gen_solver(rng, spec):
@@ -401,6 +447,11 @@ def _gen_stat(rng, with_trend: bool) -> dict:
             kind = rng.choice(["rw", "rwlog"]) if not want_linear else "rw"
             nm = rng.choice([t for t in _TREND if t not in [x["name"] for x in trend]])
             trend.append({"name": nm, "kind": kind})
+    # unit roots WITHOUT drift whose steady level is pinned by a separate steady version:  pw = pw{-1} + e !! pw = ss_pw
+    pinned = []
+    if rng.random() < (0.45 if want_linear else 0.25):
+        for pnm in rng.sample(["pw", "pv"], rng.choice([1, 1, 2])):
+            pinned.append({"name": pnm, "log": rng.random() < 0.3})
     for i, nm in enumerate(names):
         others = [o for o in names if o != nm]
         deps = rng.sample(others, min(len(others), rng.choice([0, 1, 1, 2])))
@@ -415,6 +466,11 @@ def _gen_stat(rng, with_trend: bool) -> dict:
             a = f"a_{nm}_{d}"
             params[a] = _coef(rng, 0.25)
             terms.append(mul(par(a), term(d, rng.choice([-1, 0, 0, 1]))))
+        if pinned and rng.random() < 0.5:
+            t = rng.choice(pinned)
+            a = f"a_{nm}_{t['name']}"
+            params[a] = _coef(rng, 0.3)
+            terms.append(mul(par(a), flog(var(t["name"], rng.choice([0, -1]))) if t["log"] else var(t["name"], rng.choice([0, -1]))))
         if trend and rng.random() < 0.5:
             t = rng.choice(trend)
             a = f"a_{nm}_{t['name']}"
@@ -464,9 +520,22 @@ def _gen_stat(rng, with_trend: bool) -> dict:
             eq = {"lhs": var(nm), "rhs": rhs}
         eq["form"] = form
         eq["own"] = nm
-        # a different steady-state version after `!!`: the same equation without its shock
-        if rng.random() < 0.2:
+        # a different steady-state version after `!!`: the same equation without its shock, or a MATERIALLY different
+        # one that pins the steady level by its own parameter (`dynamic !! x = ss_x`, optionally plus the cross terms)
+        r_st = rng.random()
+        if r_st < 0.15:
             eq["steady"] = {"lhs": eq["lhs"], "rhs": _drop_shocks(eq["rhs"])}
+        elif r_st < 0.4 and form in ("lin", "loglin", "geo"):
+            ss = f"ss_{nm}"
+            params[ss] = _r(rng, 0.5, 2.5)
+            keep = [_drop_shocks(t) for t in terms] if rng.random() < 0.4 else []
+            if form == "loglin":
+                eq["steady"] = {"lhs": flog(var(nm)), "rhs": sum_terms([flog(par(ss))] + keep)}
+            elif form == "geo":
+                eq["steady"] = {"lhs": var(nm), "rhs": (mul(par(ss), fexp(sum_terms(keep))) if keep else par(ss))}
+            else:
+                eq["steady"] = {"lhs": var(nm), "rhs": sum_terms([par(ss)] + keep)}
+            eq["pin_param"] = ss
         eqs.append(eq)
     allnames = list(names)
     for t in trend:
@@ -499,6 +568,18 @@ def _gen_stat(rng, with_trend: bool) -> dict:
                 other = var(d, 0) if d in logs else fexp(var(d, 0))
                 eqs.append({"lhs": var(f), "rhs": mul(var(nm), other), "form": "followlog", "own": f})
             allnames.append(f)
+    for t in pinned:
+        nm, e, ss = t["name"], f"e_{t['name']}", f"ss_{t['name']}"
+        shocks.append(e)
+        params[ss] = _r(rng, 0.5, 2.5)
+        if t["log"]:
+            logs.append(nm)
+            eqs.append({"lhs": flog(var(nm)), "rhs": add(flog(var(nm, -1)), shk(e)), "form": "rwpin", "own": nm,
+                        "steady": {"lhs": flog(var(nm)), "rhs": flog(par(ss))}, "pin_param": ss})
+        else:
+            eqs.append({"lhs": var(nm), "rhs": add(var(nm, -1), shk(e)), "form": "rwpin", "own": nm,
+                        "steady": {"lhs": var(nm), "rhs": par(ss)}, "pin_param": ss})
+        allnames.append(nm)
     # measurement variables / equations (observed = state + constant + measurement shock)
     mvars, mshocks, meqs = [], [], []
     if rng.random() < 0.35:
@@ -513,7 +594,7 @@ def _gen_stat(rng, with_trend: bool) -> dict:
                 rhs.append(shk(me))
             meqs.append({"lhs": var(nm), "rhs": sum_terms(rhs), "form": "meas", "own": nm})
             mvars.append(nm)
-    linear_ok = all(e["form"] in ("lin", "loglin", "rw", "follow") for e in eqs)
+    linear_ok = all(e["form"] in ("lin", "loglin", "rw", "follow", "rwpin") for e in eqs)
     order = list(range(len(eqs)))
     rng.shuffle(order)
     eqs = [eqs[i] for i in order]
@@ -613,8 +694,81 @@ def _gen_values(rng, spec):
     spec["start"] = start
 
 
+PLAN_METHODS = ("exogenize", "unexogenize", "endogenize", "unendogenize", "fix_level", "unfix_level", "fix_change",
+                "unfix_change", "fix", "unfix", "swap", "unswap")
+
+
+def effective_plan(calls, flat: bool) -> dict:
+    """what a history of SteadyPlan calls MEANS (stated independently of the implementation): each call switches the
+    named quantities on/off in one register, the last call wins; fix/unfix = level, and in growth mode also change;
+    swap((a, b)) = exogenize a + endogenize b"""
+    on = {k: {} for k in ("exogenize", "endogenize", "fix_level", "fix_change")}
+
+    def names_of(a):
+        return [a] if isinstance(a, str) else list(a)
+    for meth, arg in calls:
+        status = not meth.startswith("un")
+        base = meth[2:] if meth.startswith("un") else meth
+        if base == "swap":
+            for a, b in arg:
+                on["exogenize"][a] = status
+                on["endogenize"][b] = status
+        elif base == "fix":
+            for n in names_of(arg):
+                on["fix_level"][n] = status
+                if not flat:
+                    on["fix_change"][n] = status
+        else:
+            for n in names_of(arg):
+                on[base][n] = status
+    return {k: [n for n, v in d.items() if v] for k, d in on.items()}
+
+
+def _plan_calls(rng, spec):
+    """a history of public SteadyPlan calls whose meaning is spec['plan']: combined and separate calls (fix / fix_level +
+    fix_change / swap), names one by one or as lists, plus calls that are undone again later"""
+    plan, flat = spec["plan"], spec["flat"]
+    calls = []
+    exo, endo = list(plan["exogenize"]), list(plan["endogenize"])
+    fl, fc = list(plan["fix_level"]), list(plan["fix_change"])
+    while exo and endo and rng.random() < 0.5:
+        calls.append(["swap", [[exo.pop(0), endo.pop(0)]]])
+    both = [n for n in fl if (n in fc or flat)]
+    for n in both:
+        if rng.random() < 0.75:
+            calls.append(["fix", n if rng.random() < 0.7 else [n]])
+            fl.remove(n)
+            if n in fc:
+                fc.remove(n)
+    for k, ns in (("exogenize", exo), ("endogenize", endo), ("fix_level", fl), ("fix_change", fc)):
+        if len(ns) > 1 and rng.random() < 0.5:
+            calls.append([k, list(ns)])
+        else:
+            calls += [[k, n] for n in ns]
+    rng.shuffle(calls)
+    # calls that are undone again (before or after the calls that matter, never overriding them)
+    used = set(plan["exogenize"] + plan["fix_level"] + plan["fix_change"])
+    free = [n for n in spec["vars"] if n not in used]
+    if free and rng.random() < 0.4:
+        n = rng.choice(free)
+        do, undo = rng.choice([("fix", "unfix"), ("fix_level", "unfix_level"), ("exogenize", "unexogenize"),
+                               ("fix", "unfix")] + ([] if flat else [("fix_change", "unfix_change")]))
+        i = rng.randrange(len(calls) + 1)
+        calls.insert(i, [do, n])
+        calls.insert(rng.randrange(i + 1, len(calls) + 1), [undo, n if rng.random() < 0.6 else [n]])
+    got = effective_plan(calls, flat)
+    assert all(sorted(got[k]) == sorted(plan[k]) for k in plan), (calls, plan, got)
+    spec["plan_calls"] = calls
+
+
 def _gen_plan(rng, spec):
-    """an admissible steady plan (or none)"""
+    """an admissible steady plan (or none) and the history of public calls that sets it up"""
+    _gen_plan_effective(rng, spec)
+    if spec["plan"]:
+        _plan_calls(rng, spec)
+
+
+def _gen_plan_effective(rng, spec):
     spec["plan"] = None
     if spec["linear"]:
         return
@@ -637,17 +791,35 @@ def _gen_plan(rng, spec):
         spec["plan"] = plan
         spec["plan_kind"] = "fix_level_driver"
         return
+    # growth mode: a unit root with drift whose whole steady PATH (level and change) is assigned and fixed by the plan
+    # (SteadyPlan.fix = level and change in growth mode), the drift parameter being endogenized: the change of the
+    # driver is not pinned down by the remaining equations, only by the plan
+    drifters = [e["own"] for e in spec["eqs"] if e["form"] in ("rw", "rwlog") and e["own"] in spec["trend"]]
+    if drifters and not spec["flat"] and spec["family"] != "bgp" and rng.random() < 0.45:
+        own = rng.choice(drifters)
+        for i in range(spec["nv"]):
+            ch = _r(rng, 0.97, 1.06) if own in spec["logs"] else round(rng.choice([-1, 1]) * rng.uniform(0.02, 0.4), 3)
+            spec["start"][own][i] = [_r(rng, 0.5, 3.0), ch]
+        plan["fix_level"].append(own)
+        plan["fix_change"].append(own)
+        plan["endogenize"].append(f"g_{own}")
+        if spec["split"]:
+            spec["split"] = None        # blazer needs a square incidence matrix: qids = equations + 1 here
+        spec["plan"] = plan
+        spec["plan_kind"] = "fix_drift"
+        return
     if rng.random() < 0.45:
         return
     trendy = set(spec["trend"]) | set(spec["followers"])
     stationary = [e["own"] for e in spec["eqs"] if e["own"] not in trendy and e["form"] in
-                  ("lin", "exp", "prod", "ratio", "geo", "loglin", "sum")]
-    kind = rng.choice(["swap", "swap", "fix_level_trend", "fix_change", "fix_level_swap"])
-    if kind == "fix_level_swap" and spec["split"]:
+                  ("lin", "exp", "prod", "ratio", "geo", "loglin", "sum", "rwpin")]
+    pin = {e["own"]: e["pin_param"] for e in spec["eqs"] if e.get("pin_param")}
+    kind = rng.choice(["swap", "swap", "fix_level_trend", "fix_change", "fix_level_swap", "fix_swap"])
+    if kind in ("fix_level_swap", "fix_swap") and spec["split"]:
         spec["split"] = None        # blazer needs a square incidence matrix: qids = equations + 1 here
-    if kind in ("swap", "fix_level_swap") and stationary and spec["family"] != "bgp":
+    if kind in ("swap", "fix_level_swap", "fix_swap") and stationary and spec["family"] != "bgp":
         own = rng.choice(stationary)
-        b = f"b_{own}"
+        b = pin.get(own, f"b_{own}")
         target = _r(rng, 0.6, 2.2)
         ch = (1.0 if own in spec["logs"] else 0.0)
         for i in range(spec["nv"]):
@@ -656,6 +828,8 @@ def _gen_plan(rng, spec):
             plan["exogenize"].append(own)
         else:
             plan["fix_level"].append(own)
+            if kind == "fix_swap" and not spec["flat"]:
+                plan["fix_change"].append(own)
         plan["endogenize"].append(b)
     elif kind == "fix_level_trend" and spec["trend"]:
         own = rng.choice(spec["trend"])
@@ -729,9 +903,16 @@ def build_model(spec):
     plan = None
     if spec["plan"]:
         plan = ir.SteadyPlan(m)
-        for k in ("exogenize", "endogenize", "fix_level", "fix_change"):
-            for nm in spec["plan"][k]:
-                getattr(plan, k)(nm)
+        if spec.get("plan_calls") is not None:
+            for meth, arg in spec["plan_calls"]:
+                if meth in ("swap", "unswap"):
+                    getattr(plan, meth)(*[tuple(a) for a in arg])
+                else:
+                    getattr(plan, meth)(arg)
+        else:
+            for k in ("exogenize", "endogenize", "fix_level", "fix_change"):
+                for nm in spec["plan"][k]:
+                    getattr(plan, k)(nm)
     return m, plan
 
 
@@ -888,6 +1069,94 @@ def run_impl(spec) -> dict:
     out["after_all"] = [(_vals(v.levels), _vals(v.changes)) for v in m._variants]
     out["model"] = m
     return out
+
+
+BOGUS_QID = 9999
+
+
+def run_plan_history(m, spec) -> dict:
+    """play spec['plan_hist'] on a fresh SteadyPlan(m); record the four registers (insertion order) and whether the call
+    raised after every call, and what _resolve_steady_wrt / _resolve_split_into_blocks make of the final plan"""
+    import irispie as ir
+    from irispie.simultaneous import _steady as st
+    qs = m._invariant.quantities
+    qid = {q.human: q.id for q in qs}
+    kinds = model_kinds([q.kind.name for q in qs])
+    plan = ir.SteadyPlan(m)
+
+    def regs():
+        return [[[qid.get(k, BOGUS_QID), bool(v)] for k, v in getattr(plan, f"_{r}_register").items()]
+                for r in ("exogenized", "endogenized", "fixed_level", "fixed_change")]
+
+    def conv(a):
+        return ... if a == "..." else a
+    trace, errors = [], []
+    for meth, arg in spec["plan_hist"]:
+        ok = True
+        try:
+            if meth in ("swap", "unswap"):
+                getattr(plan, meth)(*[tuple(a) for a in arg])
+            else:
+                getattr(plan, meth)(conv(arg))
+        except Exception as e:  # noqa
+            ok = False
+            errors.append(type(e).__name__)
+        trace.append([regs(), ok])
+    with contextlib.redirect_stdout(io.StringIO()):
+        w = st._resolve_steady_wrt(m, plan, is_flat=bool(spec["flat"]))
+        split = bool(st._resolve_split_into_blocks(None, plan))
+
+    def q_of(a):
+        return [qid.get(n, BOGUS_QID) for n in ([a] if isinstance(a, str) else a)]
+    hist = []
+    for meth, arg in spec["plan_hist"]:
+        if meth in ("swap", "unswap"):
+            hist.append([meth, [[qid.get(a, BOGUS_QID), qid.get(b, BOGUS_QID)] for a, b in arg]])
+        else:
+            hist.append([meth, None if arg == "..." else q_of(arg)])
+    return {"kinds": kinds, "flat": bool(spec["flat"]),
+            "endog": [q.id for q in qs if kinds[q.id] == "KEndog"], "params": [q.id for q in qs if kinds[q.id] == "KParam"],
+            "hist": hist, "trace": trace, "errors": errors,
+            "wrt": [list(w.qids), list(w.fixed_level_qids), list(w.fixed_change_qids)], "split": split}
+
+
+PLAN_HEADER = """From Coq Require Import List Bool Arith.
+From Verif Require Import gen.SteadyPlanGen model.Steady model.SteadyPlan.
+Import ListNotations.
+Set Printing Width 1000000.
+Set Printing Depth 1000000.
+"""
+
+
+def _coq_sel(a) -> str:
+    return "SAll" if a is None else f"(SNames {cnl(a)})"
+
+
+def _coq_op(meth, arg) -> str:
+    if meth in ("swap", "unswap"):
+        pairs = coq_list([f"({a}%nat, {b}%nat)" for a, b in arg])
+        return f"({'OSwap' if meth == 'swap' else 'OUnswap'} {pairs})"
+    if meth in ("fix", "unfix"):
+        return f"({'OFix' if meth == 'fix' else 'OUnfix'} {_coq_sel(arg)})"
+    return f"(OCall {trp._ctor(meth)} {_coq_sel(arg)})"
+
+
+def _coq_reg(r) -> str:
+    return coq_list([f"({q}%nat, {'true' if v else 'false'})" for q, v in r])
+
+
+def coq_plan_case(c: dict) -> str:
+    trace = coq_list([f"(mkSP {_coq_reg(r[0])} {_coq_reg(r[1])} {_coq_reg(r[2])} {_coq_reg(r[3])}, {'true' if ok else 'false'})"
+                      for r, ok in c["trace"]])
+    w = c["wrt"]
+    return (f"  (mkPC {coq_list(c['kinds'])} {core.coq_bool(c['flat'])} {cnl(c['endog'])} {cnl(c['params'])}\n"
+            f"     {coq_list([_coq_op(m_, a) for m_, a in c['hist']])}\n     {trace}\n"
+            f"     ({cnl(w[0])}, {cnl(w[1])}, {cnl(w[2])}) {core.coq_bool(c['split'])})")
+
+
+def plan_shard_text(cases) -> str:
+    return (PLAN_HEADER + "Definition cases : list plan_case := [\n" + ";\n".join(coq_plan_case(c) for c in cases)
+            + "\n].\nEval vm_compute in (failing_plan_cases cases 0).\n")
 
 
 # =====================================================================================================
@@ -1320,7 +1589,7 @@ def shard_text(nl_cases, lin_cases) -> str:
 FALSIFY_DATES = (-3, -2, -1, 0, 1, 2, 3, 5)
 FALSIFY_RTOL = 1e-8
 # equation forms of the generator whose residual on a steady path is affine in time or geometric = geometric
-EVERY_DATE_FORMS = ("lin", "loglin", "rw", "follow", "rwlog", "followlog", "geo", "meas")
+EVERY_DATE_FORMS = ("lin", "loglin", "rw", "follow", "rwlog", "followlog", "geo", "meas", "rwpin")
 
 
 def _unpack(d, name, i):
@@ -1423,10 +1692,17 @@ def check_property(spec: dict, out: dict) -> list:
 def process_spec(spec: dict) -> dict:
     """one model: run the implementation, build the correspondence cases, evaluate the property"""
     out = run_impl(spec)
-    res = {"error": out["error"], "nl": [], "lin": [], "fails": [], "harness_error": None,
+    res = {"error": out["error"], "nl": [], "lin": [], "fails": [], "harness_error": None, "plan_case": None,
            "shape": (spec["family"], "linear" if spec["linear"] else "nonlinear", "flat" if spec["flat"] else "growth",
                      "plan" if spec["plan"] else "noplan", f"nv{spec['nv']}", f"split={spec['split']}"),
            "nblocks": []}
+    if out.get("model") is not None and spec.get("plan_hist"):
+        try:
+            res["plan_case"] = run_plan_history(out["model"], spec)
+        except Exception as e:  # noqa
+            import traceback
+            res["harness_error"] = traceback.format_exc()[-1500:]
+            return res
     if out["error"]:
         return res
     try:
@@ -1452,7 +1728,7 @@ def _worker(spec):
     except Exception as e:  # noqa
         import traceback
         return {"error": None, "nl": [], "lin": [], "fails": [], "harness_error": traceback.format_exc()[-1500:],
-                "shape": ("?",), "nblocks": []}
+                "shape": ("?",), "nblocks": [], "plan_case": None}
 
 
 def run_many(specs: list, workdir=None) -> list:
@@ -1511,11 +1787,13 @@ def correspondence(ctx) -> CorrResult:
     res = CorrResult()
     dist = {"models": len(specs), "completed": 0, "not_converged_or_error": 0, "shapes": {}, "blocks_per_variant": {},
             "errors": {}}
-    nl_all, lin_all = [], []
+    nl_all, lin_all, plan_all = [], [], []
     for spec, r in zip(specs, results):
         if r["harness_error"]:
             res.disagreements.append(Disagreement("harness", {"source": source_text(spec)}, None, r["harness_error"]))
             continue
+        if r.get("plan_case"):
+            plan_all.append((spec, r["plan_case"]))
         if r["error"]:
             dist["not_converged_or_error"] += 1
             k = r["error"].split(":")[1].strip() if ":" in r["error"] else r["error"]
@@ -1530,7 +1808,11 @@ def correspondence(ctx) -> CorrResult:
             nl_all.append((spec, c))
         for c in r["lin"]:
             lin_all.append((spec, c))
-    res.evaluations = len(nl_all) + len(lin_all)
+    res.evaluations = len(nl_all) + len(lin_all) + len(plan_all)
+    dist["plan_histories"] = {"cases": len(plan_all), "calls": sum(len(c["hist"]) for _, c in plan_all),
+                              "calls_that_raised": sum(len(c["errors"]) for _, c in plan_all),
+                              "growth": sum(1 for _, c in plan_all if not c["flat"]),
+                              "distinct": len({repr(c["hist"]) + repr(c["endog"]) + repr(c["flat"]) for _, c in plan_all})}
     res.distinct_nontrivial = len({repr(c["xtrings"]) + repr(c["levels"]) + repr(c["orcs"]) for _, c in nl_all
                                    if c["orcs"]}) + len({repr(c["sys"]) for _, c in lin_all})
     res.distribution = dist
@@ -1540,7 +1822,11 @@ def correspondence(ctx) -> CorrResult:
                 "optional steady plan; 1-2 variants; split_into_blocks None/True/False; solver default / neqs_levenberg / scipy_root "
                 "with and without solver_settings; called as steady or solve_steady) run through the public method; one "
                 "case per parameter variant; non-trivial = at least one block was handed to the solver (nonlinear) or a linear "
-                "system was solved; distinct = distinct (equations, starting values, recorded solver output)")
+                "system was solved; distinct = distinct (equations, starting values, recorded solver output).  Plan histories: per "
+                "generated model one random history of 1-10 public SteadyPlan calls (the twelve methods; names singly, as lists, "
+                "Ellipsis; some invalid) played on a fresh SteadyPlan and on the register machine of model/SteadyPlan.v; the four "
+                "registers and the raised/not-raised flag after EVERY call, the qid tuples of _resolve_steady_wrt and the default of "
+                "_resolve_split_into_blocks for the final plan are compared exactly")
     res.samples = [{"source": source_text(s), "plan": s["plan"], "flat": s["flat"], "linear": s["linear"],
                     "expect": c["expect"]} for s, c in nl_all[:2]] + \
                   [{"source": source_text(s), "flat": s["flat"], "expect": c["expect"]} for s, c in lin_all[:1]]
@@ -1557,8 +1843,27 @@ def correspondence(ctx) -> CorrResult:
         b = lin_all[k * len(lin_all) // nsh:(k + 1) * len(lin_all) // nsh]
         shards.append((a, b))
     texts = [shard_text([c for _, c in a], [c for _, c in b]) for a, b in shards]
+    per_plan = 150
+    plan_shards = [plan_all[k:k + per_plan] for k in range(0, len(plan_all), per_plan)]
+    texts += [plan_shard_text([c for _, c in a]) for a in plan_shards]
     results = core.run_cases(ctx, texts)
     res.shards = len(texts)
+    for a, (ok, outp) in zip(plan_shards, results[len(shards):]):
+        if not ok:
+            res.disagreements.append(Disagreement("plan-history cases shard does not evaluate", None, outp[-800:], None))
+            continue
+        bodies = core.parse_eval_lists(outp)
+        if len(bodies) != 1:
+            res.disagreements.append(Disagreement("plan-history cases shard: unparsable output", None, outp[-800:], None))
+            continue
+        for i in core.parse_nat_list(bodies[0]):
+            spec, c = a[i]
+            res.disagreements.append(Disagreement(
+                "plan-history", {"source": source_text(spec), "flat": spec["flat"], "history": spec["plan_hist"]},
+                "the register machine of model/SteadyPlan.v run on the same calls gives other registers / ok flags / "
+                "_resolve_steady_wrt qids / split default",
+                {"trace": c["trace"], "wrt": c["wrt"], "split": c["split"]}))
+    results = results[:len(shards)]
     comp = {1: "wrt_qids", 2: "fixed_level_qids", 3: "fixed_change_qids", 4: "block observations (index masks / initial guess / "
             "residual vector at the final guess)", 5: "stored levels after write-back", 6: "stored changes after write-back"}
     for k, (ok, outp) in enumerate(results):
